@@ -29,6 +29,32 @@ fn vouch_bits(x: u64) -> u64 {
     unsafe { std::mem::transmute::<raffle::Voucher, u64>(VOUCH_PARAMS.vouch(x)) }
 }
 
+/// Base times whose VOUCHER WORD is a special bit pattern (0, all ones, 1, 2^63, equal to the base
+/// time itself is not solvable in general): `vouch` is affine in the value with an odd
+/// multiplier, `vouch(x) = (x + offset) * m (mod 2^64)`, so `x = target * m^-1 - offset`.
+/// A reader that treats some voucher pattern as "not published yet / invalid" shows only there.
+fn special_bases() -> Vec<u64> {
+    let v0 = vouch_bits(0);
+    let m = vouch_bits(1).wrapping_sub(v0);
+    if m & 1 == 0 {
+        return vec![];
+    }
+    // Newton iteration for the inverse of an odd number modulo 2^64
+    let mut inv = m;
+    for _ in 0..6 {
+        inv = inv.wrapping_mul(2u64.wrapping_sub(m.wrapping_mul(inv)));
+    }
+    let offset = v0.wrapping_mul(inv);
+    let mut out = Vec::new();
+    for target in [0u64, u64::MAX, 1, 1 << 63] {
+        let x = target.wrapping_mul(inv).wrapping_sub(offset);
+        if vouch_bits(x) == target {
+            out.push(x);
+        }
+    }
+    out
+}
+
 fn voucher_of_bits(bits: u64) -> raffle::Voucher {
     unsafe { std::mem::transmute::<u64, raffle::Voucher>(bits) }
 }
@@ -49,6 +75,13 @@ fn parse_val(s: &str) -> Option<u64> {
     } else {
         s.parse().ok()
     }
+}
+
+/// Values of the base-time and sequence words are plain numbers; only the voucher words (locations
+/// v0 = 2, v1 = 4) are shown symbolically.  (A base time can coincide numerically with the voucher
+/// of another base time - e.g. 0 is the voucher of `special_bases()[0]`.)
+fn fmt_loc_val(l: usize, v: u64) -> String {
+    if l == 2 || l == 4 { fmt_val(v) } else { v.to_string() }
 }
 
 fn fmt_val(v: u64) -> String {
@@ -133,7 +166,7 @@ impl OpRec {
     fn fmt(&self) -> String {
         match self {
             OpRec::Load(l, o) => format!("ld.{}.{}", LOC_NAMES[*l], o.name()),
-            OpRec::Store(l, o, v) => format!("st.{}.{}={}", LOC_NAMES[*l], o.name(), fmt_val(*v)),
+            OpRec::Store(l, o, v) => format!("st.{}.{}={}", LOC_NAMES[*l], o.name(), fmt_loc_val(*l, *v)),
             OpRec::Lock => "lock".into(),
             OpRec::TryLock => "trylock".into(),
             OpRec::Unlock(p) => format!("unlock.{}", *p as u8),
@@ -189,7 +222,8 @@ fn parse_fed(s: &str) -> Option<Fed> {
 
 fn fmt_fed(f: Fed) -> String {
     match f {
-        Fed::Val(v) | Fed::Vch(v) => fmt_val(v),
+        Fed::Val(v) => v.to_string(),
+        Fed::Vch(v) => fmt_val(v),
         Fed::Lk(l) => l.name().into(),
         Fed::Unit => String::new(),
     }
@@ -288,7 +322,7 @@ enum Ret {
 
 fn fmt_ret(r: Ret) -> String {
     match r {
-        Ret::Snap(b, v) => format!("ret={},{}", fmt_val(b), fmt_val(v)),
+        Ret::Snap(b, v) => format!("ret={},{}", b, fmt_val(v)),
         Ret::Bool(b) => format!("ret={}", b),
         Ret::Unit => "ret".into(),
     }
@@ -530,12 +564,17 @@ struct SimThread {
     start_seen: Option<usize>, // what the thread knew of `sequence` when the snapshot began
     last_seq_read: Option<u64>,
     last_snap_base: Option<u64>,
+    /// the largest base time of a valid update call that RETURNED (accepted or ignored; `try_update`
+    /// only when it answered true) in this thread or in a thread it synchronised with since
+    floor: u64,
+    /// that floor (SC: over all threads) when the current snapshot began
+    floor_at_start: u64,
 }
 
 impl SimThread {
     fn new() -> SimThread {
         SimThread { view: [0; 5], call: None, fed: vec![], pending: None, status: Status::Idle, own_steps: 0, lock_ops: 0,
-                    stores: 0, start_seen: None, last_seq_read: None, last_snap_base: None }
+                    stores: 0, start_seen: None, last_seq_read: None, last_snap_base: None, floor: 0, floor_at_start: 0 }
     }
 }
 
@@ -549,6 +588,8 @@ struct Sim {
     threads: Vec<SimThread>,
     /// shadow: the pairs whose `sequence` store happened, in order, after the epoch pair
     committed: Vec<(u64, u64)>,
+    /// shadow (SC machine): the largest base time of a valid update call that has returned
+    sc_floor: u64,
 }
 
 fn join(a: &View, b: &View) -> View {
@@ -571,7 +612,7 @@ struct StepOutcome {
 impl Sim {
     fn new(sc: bool) -> Sim {
         Sim { sc, mem: Default::default(), held: None, poisoned: false, mview: [0; 5], threads: vec![],
-              committed: vec![(0, vouch_bits(0))] }
+              committed: vec![(0, vouch_bits(0))], sc_floor: 0 }
     }
 
     fn thread(&mut self, t: usize) -> &mut SimThread {
@@ -638,14 +679,22 @@ impl Sim {
         th.stores = 0;
         th.start_seen = None;
         th.last_seq_read = None;
+        th.floor_at_start = th.floor;
+        if self.sc {
+            let f = self.sc_floor;
+            let th = self.thread(t);
+            th.floor_at_start = th.floor_at_start.max(f);
+        }
         self.refresh(t, obj, viol);
         true
     }
 
     fn sync(&mut self, t: usize, u: usize) {
         let uv = self.thread(u).view;
+        let uf = self.thread(u).floor;
         let th = self.thread(t);
         th.view = join(&th.view, &uv);
+        th.floor = th.floor.max(uf);
     }
 
     /// The choices a scheduler has for thread `t`: `None` = not runnable now.
@@ -703,8 +752,8 @@ impl Sim {
                     }
                     th.last_seq_read = Some(val);
                 }
-                desc = if sc { format!("{}={}", op.fmt(), fmt_val(val)) }
-                       else { format!("{}@{}[{}..{}]={}", op.fmt(), ts, lo, len - 1, fmt_val(val)) };
+                desc = if sc { format!("{}={}", op.fmt(), fmt_loc_val(*l, val)) }
+                       else { format!("{}@{}[{}..{}]={}", op.fmt(), ts, lo, len - 1, fmt_loc_val(*l, val)) };
             }
             OpRec::Store(l, o, val) => {
                 let ts = self.mem[*l].len();
@@ -786,6 +835,7 @@ impl Sim {
         }
         let was_blocked_try = op == OpRec::TryLock && self.threads[t].fed.last() == Some(&Fed::Lk(Lk::WouldBlock));
         self.refresh(t, obj, &mut viol);
+        let mut new_floor: Option<u64> = None;
         let th = &mut self.threads[t];
         match th.status.clone() {
             Status::Finished(r) => {
@@ -818,9 +868,22 @@ impl Sim {
                         }
                     }
                     th.last_snap_base = Some(b);
+                    // ... nor than a valid update call that had RETURNED before it began (in this
+                    // thread, in a thread it synchronised with, or - SC - anywhere): accepted or
+                    // ignored, the update leaves the current base time at least as recent as its own
+                    if b < th.floor_at_start {
+                        viol.push(format!("C13 snapshot base {} older than an update call (base {}) that returned before it began", b, th.floor_at_start));
+                    }
                     if th.lock_ops > 0 || th.stores > 0 {
                         viol.push("C18 snapshot used the lock or wrote".into());
                     }
+                }
+                match (call, r) {
+                    (Call::Update(b, v), Ret::Unit) | (Call::TryUpdate(b, v), Ret::Bool(true)) if vouch_bits(b) == v => {
+                        th.floor = th.floor.max(b);
+                        new_floor = Some(b);
+                    }
+                    _ => {}
                 }
                 if was_blocked_try && (r != Ret::Bool(false) || th.own_steps != 1) {
                     viol.push("C18 try_update did not return false at once although the lock was held".into());
@@ -843,6 +906,9 @@ impl Sim {
                     }
                 }
             }
+        }
+        if let Some(b) = new_floor {
+            self.sc_floor = self.sc_floor.max(b);
         }
         if !sc {
             desc.push_str(&format!(" view={}", fmt_view(&self.threads[t].view)));
@@ -1081,14 +1147,15 @@ fn enumerate_traces(obj: &Obj, call: Call, max_len: usize, wide: bool, out: &mut
 
 fn random_token(rng: &mut Rng, op: Option<&OpRec>) -> String {
     let seqs: [u64; 10] = [0, 1, 2, 3, 4, 7, 8, 1 << 32, (1 << 63) - 1, (1 << 63) - 2];
-    let bases: [u64; 8] = [0, 1, 5, 6, 7, 9, u64::MAX, 1 << 40];
+    let mut bases: Vec<u64> = vec![0, 1, 5, 6, 7, 9, u64::MAX, 1 << 40];
+    bases.extend(special_bases());
     match op {
         Some(OpRec::Load(SEQ, _)) => seqs[rng.below(seqs.len() as u64) as usize].to_string(),
         Some(OpRec::Load(1, _)) | Some(OpRec::Load(3, _)) => {
-            bases[rng.below(8) as usize].to_string()
+            bases[rng.below(bases.len() as u64) as usize].to_string()
         }
         Some(OpRec::Load(_, _)) => {
-            if rng.chance(1, 8) { rng.below(1 << 20).to_string() } else { format!("v{}", bases[rng.below(8) as usize]) }
+            if rng.chance(1, 8) { (2 + rng.below(1 << 20)).to_string() } else { format!("v{}", bases[rng.below(bases.len() as u64) as usize]) }
         }
         Some(OpRec::Lock) => (*rng.pick(&["ok", "ok", "poisoned", "wouldblock"])).to_string(),
         Some(OpRec::TryLock) => (*rng.pick(&["ok", "ok", "poisoned", "wouldblock"])).to_string(),
@@ -1098,11 +1165,13 @@ fn random_token(rng: &mut Rng, op: Option<&OpRec>) -> String {
 
 /// Occasionally an ill-typed token (both sides must answer `bad-script`).
 fn wild_token(rng: &mut Rng) -> String {
-    (*rng.pick(&["0", "ok", "v5", "wouldblock"])).to_string()
+    (*rng.pick(&["3", "ok", "v5", "wouldblock"])).to_string() // never 0 / 1: the numeric value of a special voucher word
 }
 
 fn random_call(rng: &mut Rng, allow_unlocked: bool) -> Call {
-    let b = *rng.pick(&[0u64, 1, 5, 6, 7, 9, 1 << 40, u64::MAX]);
+    let mut bs: Vec<u64> = vec![0u64, 1, 5, 6, 7, 9, 1 << 40, u64::MAX];
+    bs.extend(special_bases());
+    let b = *rng.pick(&bs);
     let v = if rng.chance(1, 6) { vouch_bits(b.wrapping_add(1)) } else { vouch_bits(b) };
     parse_val(&format!("v{}", b));
     parse_val(&format!("v{}", b.wrapping_add(1)));
@@ -1159,6 +1228,13 @@ fn random_execution(obj: &Obj, rng: &mut Rng, thorough: bool) -> Vec<String> {
     let mut viol = Vec::new();
     // increasing base times most of the time, so that updates are accepted
     let mut clock = 1u64;
+    if rng.chance(1, 5) {
+        // walk the base times through one whose voucher word is a special bit pattern
+        let sp = special_bases();
+        if !sp.is_empty() {
+            clock = (*rng.pick(&sp)).saturating_sub(rng.below(3)).max(1);
+        }
+    }
     for _ in 0..nsteps {
         let t = rng.below(nthreads as u64) as usize;
         sim.thread(t);
@@ -1342,6 +1418,11 @@ impl Family for AbtFamily {
             format!("explore sc {} u5,u7/t9/s,s", budget),
             format!("explore ra {} x5,u6/t7/s", budget),
             format!("explore ra {} u5,u3,u6/s,s", budget),
+            // two BLOCKING writers racing for the lock, the second one then reads: an update that
+            // returned (accepted or ignored) must be covered by every later snapshot of its thread
+            format!("explore sc {} u5,u9/u7,s", budget),
+            format!("explore ra {} u5,u9/u7,s", budget),
+            format!("explore sc {} u5,u9/t7,u7,s", budget),
         ];
         if thorough {
             explores.push(format!("explore ra {} u5,u7/t6,u8/s,s", budget));
